@@ -183,6 +183,10 @@ fn scenario(s0: u32, events: &[u32]) {
     }
     vassert!(h().subtask_cancels == ((!done) as u32), "C21: only a call still in progress is cancelled, once");
     vassert!(!h().subtask_cancel_while_joined, "C21: cancelled while still registered with the task");
+    vassert!(!h().subtask_cancel_after_drop, "C21: the subtask handle was dropped before the call was cancelled (cancel of a handle that no longer exists; drop of a call still in progress)");
+    if h().subtask_cancels == 1 {
+        vassert!(h().subtask_cancelled_handle == HANDLE, "C21: the cancel names the call's own handle");
+    }
     vassert!(host::total_registrations() == 0);
     kani::cover!(sl().lower == 1, "scenario reaches its end");
 }
